@@ -138,7 +138,13 @@ func (c *Ctx) DiffProgram(p *Program, o DiffOpt) DiffResult {
 		}
 		res.CompileOK = true
 		if !o.NoCheck {
-			if ok, msg := c.NodeCheck(cr.JS); !ok {
+			ok, msg, unsure := c.NodeCheck3(cr.JS)
+			if unsure {
+				c.Inconclusive("node-check-inconclusive")
+				res.Verdict = "inconclusive"
+				return res
+			}
+			if !ok {
 				res.Verdict = "violated"
 				res.Diff = "emitted file is not valid JavaScript (" + names[i] + "): " + clipN(msg, 2000)
 				c.violateUnlessQuiet(o.Quiet, p.Name, res.Diff, bundle(nil))
